@@ -41,20 +41,48 @@ Theorem C16_fill_sectors :
                    /\ is_valid_sector G (map (idual G) ixs) (charge_or_ident G q) s = true)).
 Proof. exact fill_sectors_partial. Qed.
 
-(* __init__ with the charge omitted: identity when nothing is stored, otherwise the PLAIN
-   combine of the first stored sector, which conserves charge when no index is dual *)
+(* __init__ with the charge omitted: identity when nothing is stored, otherwise the SIGNED
+   combination of the first stored sector (fix 28a1fb2) — for EVERY dualness pattern the first
+   sector conserves the inferred charge, and when the block set conserves some charge q the
+   inferred charge is q, so every stored sector is conserving *)
 Theorem C16_init_infers_charge :
   forall (G : Symmetry) (R : Ring) (ixs : list (index G)) (blks : list (list (C G) * tensor R)),
     indices G R (init_array G R ixs None blks) = ixs
     /\ blocks G R (init_array G R ixs None blks) = blks
     /\ (blks = [] -> charge G R (init_array G R ixs None blks) = ident G)
     /\ (forall s b rest, blks = (s, b) :: rest ->
-          charge G R (init_array G R ixs None blks) = combine G s
-          /\ (GroupLaws G -> length s = length ixs ->
-              forallb (fun ix => negb (idual G ix)) ixs = true ->
-              is_valid_sector G (map (idual G) ixs) (charge G R (init_array G R ixs None blks)) s = true))
+          charge G R (init_array G R ixs None blks)
+          = combine G (signed_sector G false s (map (idual G) ixs))
+          /\ (GroupLaws G ->
+              is_valid_sector G (map (idual G) ixs) (charge G R (init_array G R ixs None blks)) s = true)
+          /\ (GroupLaws G -> forall q,
+              Forall (fun sb => is_valid_sector G (map (idual G) ixs) q (fst sb) = true) blks ->
+              charge G R (init_array G R ixs None blks) = q
+              /\ Forall (fun sb => is_valid_sector G (map (idual G) ixs)
+                                      (charge G R (init_array G R ixs None blks)) (fst sb) = true) blks))
     /\ (forall c, charge G R (init_array G R ixs (Some c) blks) = c).
 Proof. exact init_infers_charge. Qed.
+
+(* direct construction with the charge omitted gives a valid array back from its indices and
+   blocks, and agrees with from_blocks GIVEN that charge; from_blocks with the charge omitted
+   takes the identity (as documented), so it agrees with the direct route exactly when the
+   charge of the blocks is the identity — otherwise its result has charge identity and none of
+   its sectors conserves it *)
+Theorem C16_direct_vs_from_blocks :
+  forall (G : Symmetry) (R : Ring), GroupLaws G -> OrderLaws G ->
+  forall (x : aarray G R), wf_array G R x = true -> blocks G R x <> [] ->
+    init_array G R (indices G R x) None (blocks G R x) = x
+    /\ (exists y1, from_blocks G R (blocks G R x) (duals G R x)
+                               (Some (charge G R (init_array G R (indices G R x) None (blocks G R x)))) = Some y1
+                   /\ charge G R y1 = charge G R x /\ blocks G R y1 = blocks G R x
+                   /\ duals G R y1 = duals G R x)
+    /\ (exists y0, from_blocks G R (blocks G R x) (duals G R x) None = Some y0
+                   /\ charge G R y0 = ident G /\ blocks G R y0 = blocks G R x
+                   /\ (charge G R y0 = charge G R x <-> charge G R x = ident G)
+                   /\ (charge G R x <> ident G ->
+                       forall s, In s (sectors G R y0) ->
+                                 is_valid_sector G (duals G R y0) (charge G R y0) s = false)).
+Proof. exact direct_vs_from_blocks. Qed.
 
 (* from_blocks (blocks x) (duals x) q: charge q (identity if omitted), the same blocks and
    sem; tables = the charges occurring in stored sectors, equal to the tables of x when every
@@ -206,14 +234,14 @@ Theorem C16_class_symmetry :
 Proof. exact class_symmetry. Qed.
 
 (* every constructor hands `symmetry` to get_class_symmetry unchanged, charge=None is the
-   identity in the classmethods and "first sector, unsigned" in __init__, and the classmethods
+   identity in the classmethods and "first sector, signed by the index directions" in __init__, and the classmethods
    hand charge/symmetry/indices on to cls(...) *)
 Theorem C16_ctor_passes_symmetry_and_charge :
   Gen.Ctor.symmetry_calls
   = [("AbelianArray.__init__", Gen.Ctor.SCPass); ("AbelianArray.from_fill_fn", Gen.Ctor.SCPass);
      ("AbelianArray.from_blocks", Gen.Ctor.SCPass); ("AbelianArray.from_dense", Gen.Ctor.SCPass)]
   /\ Gen.Ctor.charge_defaults
-     = [("AbelianArray.__init__", Gen.Ctor.CDFirstSectorUnsigned); ("AbelianArray.from_fill_fn", Gen.Ctor.CDIdentity);
+     = [("AbelianArray.__init__", Gen.Ctor.CDFirstSectorSigned); ("AbelianArray.from_fill_fn", Gen.Ctor.CDIdentity);
         ("AbelianArray.from_blocks", Gen.Ctor.CDIdentity); ("AbelianArray.from_dense", Gen.Ctor.CDIdentity);
         ("FermionicArray.__init__", Gen.Ctor.CDForwarded); ("AbelianArray.random", Gen.Ctor.CDForwarded)]
   /\ map fst Gen.Ctor.cls_calls
@@ -237,6 +265,7 @@ Proof. exact utils_from_dense_dispatch. Qed.
 
 Print Assumptions C16_fill_sectors.
 Print Assumptions C16_init_infers_charge.
+Print Assumptions C16_direct_vs_from_blocks.
 Print Assumptions C16_from_blocks_eq.
 Print Assumptions C16_to_dense_sem.
 Print Assumptions C16_f_to_dense_sem.
